@@ -128,6 +128,18 @@ inline std::string owner_tag(const void* p) {
 struct AnyTag {};
 template <class T> std::string rt_describe(const T&) { return std::string("?") ; }
 inline std::string rt_describe(const msm::front::none&) { return "none"; }
+// type-erased events (Kleene triggers; backmp11 favor_compile_time hands std::any to no_transition/exception_caught):
+// the generated TU knows the event types and looks inside
+std::string describe_std_any(const std::any& a);
+std::string describe_boost_any(const boost::any& a);
+inline std::string rt_describe(const std::any& a) { return "any(" + describe_std_any(a) + ")"; }
+inline std::string rt_describe(const boost::any& a) { return "any(" + describe_boost_any(a) + ")"; }
+#if CFG <= 3
+// explicit / fork / entry-point entries hand the submachine's own on_entry a wrapper around the original event
+template <class S, class E> std::string rt_describe(const msm::back::direct_entry_event<S, E>& w) { return rt_describe(w.m_event); }
+#elif CFG == 4
+template <class S, class E> std::string rt_describe(const msm::back11::direct_entry_event<S, E>& w) { return rt_describe(w.m_event); }
+#endif
 
 // ------------------------------------------------------------------ freeze map for completion guards
 // generated code fills: for each state index, the mask of completion-guard atoms frozen at its entry
